@@ -66,8 +66,9 @@ async fn reqrep_case(client: &Client, raw: &quinn::Connection, log: &EvLog, run:
         let payload = format!("call{}:{:08x}", c, rng.gen::<u32>());
         log.emit("call_start", json!({"c": c, "s": s}));
         handles.push(tokio::spawn(async move {
+            let t0 = std::time::Instant::now();
             let r = h.request(payload).await;
-            (c, r)
+            (c, r, t0.elapsed().as_millis() as u64)
         }));
     }
     // the replier collects the requests
@@ -102,14 +103,14 @@ async fn reqrep_case(client: &Client, raw: &quinn::Connection, log: &EvLog, run:
     }
     let mut results: HashMap<u64, String> = HashMap::new();
     for h in handles {
-        let (c, r) = h.await?;
+        let (c, r, ms) = h.await?;
         let (res, val_call) = match r {
             Ok(v) => ("ok".to_string(), v.strip_prefix("re:").map(|x| call_of(x.as_bytes())).unwrap_or(0)),
             Err(selium::std::errors::SeliumError::RequestTimeout) => ("timeout".to_string(), 0),
             Err(e) => (format!("err: {e}"), 0),
         };
         results.insert(c, res.clone());
-        log.emit("call_ret", json!({"c": c, "res": res, "val_call": val_call}));
+        log.emit("call_ret", json!({"c": c, "res": res, "val_call": val_call, "ms": ms, "timeout_ms": TIMEOUT_MS}));
     }
     // late replies go out once every call has long timed out ...
     let since = t_recv.elapsed();
